@@ -534,12 +534,15 @@ class RawOrigin(Behaviour):
     """Tunnel-style origin: sends `greeting` pieces on accept, then `after[n]` pieces once
     n bytes were received; optional final action."""
 
-    def __init__(self, greeting=(), after=None, finally_=None):
+    def __init__(self, greeting=(), after=None, finally_=None, no_read=False):
         self.greeting = list(greeting)
         self.after = dict(after or {})
         self.finally_ = finally_
+        self.no_read = no_read
 
     def on_accept(self, conn):
+        if self.no_read:
+            conn.reading = False        # accepts, then never reads: the proxy's writes pile up
         for p in self.greeting:
             conn.outbox.append(('send', p))
         if not self.after and self.finally_:
@@ -726,6 +729,7 @@ class WorldImpl(World):
         self.hung = False
         self.run_exc = None
         self.executor = None
+        self.blocked = []          # (role, call, seconds): SUT socket calls that blocked the event-loop thread
         self.hooks = []            # callables(world) run each turn before peers (scenario-specific)
         self.at_quiescence = None  # callable(world) run right before the stop is raised
         self.census0 = None
@@ -861,7 +865,21 @@ class WorldImpl(World):
             raise ConnectionResetError(a[1], os.strerror(a[1]))
         take = a[1]
         try:
-            r = _c_send(sock, data[:take], *flags)
+            if sock.gettimeout() != 0.0:
+                # A send() on a BLOCKING socket (or one with a timeout) whose buffer is full waits for the peer.
+                # Nobody else runs while the single event-loop thread sits in that call, so in this world it
+                # waits for its whole timeout: the virtual clock jumps and the call times out, instead of the
+                # harness really sleeping.  The stall is recorded (w.blocked) for the oracles.
+                import select as _select
+                if not _select.select([], [sock.fileno()], [], 0)[1]:
+                    t = sock.gettimeout()
+                    self.blocked.append((role, 'send', t))
+                    self.log(role, 'sut_send_blocks_event_loop', t)
+                    self.now += (t if t is not None else 3600.0)
+                    raise socket.timeout('timed out')
+                r = _c_send(sock, data[:take], *flags)
+            else:
+                r = _c_send(sock, data[:take], *flags)
         except OSError as e:
             self.log(role, 'sut_send_exc', e.errno)
             raise
